@@ -37,6 +37,16 @@ CHECKS = {
              "and all look-ups compared; the real tables of the working tree's propka.cfg are dumped and checked by TLC "
              "for every ordered pair of creatable group types.",
         design="5/C18"),
+    "C11": dict(
+        engine="CellList",
+        technique="TLA+ cell-list mechanism vs all-pairs declaration model-checked by TLC; TLC-generated placements replayed "
+                  "into BondMaker; real bond sets and recorded traversal of random clouds trace-validated by TLC",
+        text="TLC runs the stepwise cell-list mechanism (insert, within-cell, 13 half-space offsets) to completion for every "
+             "placement of two (thorough: three) atoms straddling all cell boundaries/thresholds in all 26 directions incl. "
+             "negative cells and checks it equals the all-pairs criterion, half-space cover and the locality lemma; every "
+             "placement is replayed through the real BondMaker at three rigid shifts; real bond sets, bridge flags and the "
+             "recorded pair-loop traversal of random dense clouds are checked by TLC. Thresholds are read from the working tree.",
+        design="5/C11"),
 }
 
 NOT_APPLICABLE = {}
